@@ -409,11 +409,62 @@ func randVersion(r *hx.Rand) *version {
 	for i := 0; i < n; i++ {
 		v.newTop(r, 3)
 	}
+	if r.Intn(8) != 0 {
+		v.repair()
+	}
 	return v
+}
+
+// repair renames call sites the way a user would after goderive's "conflicting/ambiguous function
+// names" refusal: one name per (plugin, argument type).
+func (v *version) repair() {
+	type key struct {
+		k int
+		t string
+	}
+	nameOf := map[key]int{}
+	typeOf := map[[2]int]string{}
+	var walk func(e *expr)
+	walk = func(e *expr) {
+		if e.isVar {
+			return
+		}
+		walk(e.a) // inner calls first: their names decide the types further out
+		t := v.typeOf(e.a)
+		if t == nil {
+			return
+		}
+		ts := t.goStr()
+		if s, ok := nameOf[key{e.k, ts}]; ok {
+			e.suf = s
+			return
+		}
+		if old, ok := typeOf[[2]int{e.k, e.suf}]; ok && old != ts {
+			for s := range suffixes {
+				if _, used := typeOf[[2]int{e.k, s}]; !used {
+					e.suf = s
+					break
+				}
+			}
+		}
+		nameOf[key{e.k, ts}] = e.suf
+		typeOf[[2]int{e.k, e.suf}] = ts
+	}
+	for _, t := range v.tops {
+		walk(t.e)
+	}
 }
 
 // edit returns the next version and a description of the edit.
 func edit(r *hx.Rand, v *version) (*version, string) {
+	w, d := edit1(r, v)
+	if r.Intn(8) != 0 {
+		w.repair()
+	}
+	return w, d
+}
+
+func edit1(r *hx.Rand, v *version) (*version, string) {
 	w := v.clone()
 	for try := 0; try < 10; try++ {
 		switch c := r.Intn(20); {
@@ -706,7 +757,11 @@ func (c *collector) observe(cfg hx.Config, what string, v ver, old []byte, oldEx
 	if sameAs(a, s) {
 		same = 1
 	}
-	c.add(fmt.Sprintf("(regen %s %s %s %d)", v.pkg, oldS, parseReal(a.exit, a.bytes, a.exists, v), same))
+	kind := "regen"
+	if os.Getenv("VERIF_C07_PINNED") == "1" {
+		kind = "regen-pinned" // diagnostic: compare with the model of the code before the fixes
+	}
+	c.add(fmt.Sprintf("(%s %s %s %s %d)", kind, v.pkg, oldS, parseReal(a.exit, a.bytes, a.exists, v), same))
 	c.mu.Lock()
 	c.nrun++
 	if same == 0 && c.bad < 3 {
@@ -793,6 +848,11 @@ func Run(cfg hx.Config) (*hx.Meta, error) {
 		for s := 0; s < steps; s++ {
 			var d string
 			v, d = edit(hr, v)
+			if i%3 == 0 && s == steps-1 && len(v.tops) > 0 { // every third history ends with no derive call left
+				v = v.clone()
+				v.tops = nil
+				d = "remove-all-calls"
+			}
 			h.vers = append(h.vers, v.render())
 			h.desc = append(h.desc, d)
 		}
@@ -861,6 +921,78 @@ func Run(cfg hx.Config) (*hx.Meta, error) {
 			// the next step starts from whatever is on disk now
 			b, err := os.ReadFile(filepath.Join(dir, "derived.gen.go"))
 			prev = outcome{exists: err == nil, bytes: b}
+		}
+	})
+
+	// several packages in one invocation (goderive ./...): each package directory holds the output of
+	// an earlier version (or a cut-off file); the result per package must be the scratch result
+	nm := 4
+	if cfg.Tier == "thorough" {
+		nm = 24
+	}
+	gen := []hist{}
+	for _, h := range hists {
+		if !strings.HasPrefix(h.name, "corpus/") {
+			gen = append(gen, h)
+		}
+	}
+	hx.Parallel(nm, 16, func(mi int) {
+		mr := r.Fork(uint64(1000 + mi))
+		root := filepath.Join(cfg.Work, fmt.Sprintf("multi%d", mi))
+		sroot := filepath.Join(cfg.Work, fmt.Sprintf("multi%d-scratch", mi))
+		npk := 2 + mr.Intn(2)
+		type pk struct {
+			v         ver
+			old       []byte
+			oldExists bool
+		}
+		var pks []pk
+		for _, rt := range []string{root, sroot} {
+			os.MkdirAll(rt, 0o755)
+			hx.Module(rt)
+		}
+		for pi := 0; pi < npk; pi++ {
+			h := gen[mr.Intn(len(gen))]
+			si := 1 + mr.Intn(len(h.vers)-1)
+			v := h.vers[si]
+			// old file: the from-scratch output of the previous version, possibly cut off
+			o := runIn(cfg, filepath.Join(cfg.Work, fmt.Sprintf("multi%d-old%d", mi, pi)), h.vers[si-1], nil, false)
+			old, ex := o.bytes, o.exists && o.exit == 0
+			if ex && mr.Intn(2) == 0 {
+				old = old[:mr.Intn(len(old)+1)]
+			}
+			pks = append(pks, pk{v, old, ex})
+			for _, rt := range []string{root, sroot} {
+				d := filepath.Join(rt, fmt.Sprintf("q%d", pi))
+				os.MkdirAll(d, 0o755)
+				os.WriteFile(filepath.Join(d, "a.go"), []byte(strings.Replace(v.src, "package p\n", fmt.Sprintf("package q%d\n", pi), 1)), 0o644)
+			}
+			if ex {
+				os.WriteFile(filepath.Join(root, fmt.Sprintf("q%d", pi), "derived.gen.go"), old, 0o644)
+			}
+		}
+		g := hx.Goderive(cfg.Goderive, root, "./...")
+		gs := hx.Goderive(cfg.Goderive, sroot, "./...")
+		col.meta.CountSafe("multi-package-invocation")
+		for pi, q := range pks {
+			rd := func(rt string, ex int, log string) outcome {
+				b, err := os.ReadFile(filepath.Join(rt, fmt.Sprintf("q%d", pi), "derived.gen.go"))
+				return outcome{exit: ex, exists: err == nil, bytes: b, log: log}
+			}
+			a, s := rd(root, g.Exit, g.Out), rd(sroot, gs.Exit, gs.Out)
+			if gs.Exit != 0 || g.Exit != 0 {
+				// goderive stops at the first failing package, in unspecified package order (C08): only the
+				// exit status is comparable
+				if (gs.Exit != 0) != (g.Exit != 0) {
+					col.meta.AddDirect(hx.Direct{Class: "c07-differs-from-scratch",
+						What:  fmt.Sprintf("multi-package invocation %d: exit %d over old files, %d from scratch", mi, g.Exit, gs.Exit),
+						Files: files(q.v, q.old, q.oldExists), Cmd: "goderive ./...", Output: hx.Truncate(g.Out, 1500)})
+				}
+				continue
+			}
+			v := q.v
+			v.src = strings.Replace(v.src, "package p\n", fmt.Sprintf("package q%d\n", pi), 1)
+			col.observe(cfg, fmt.Sprintf("multi-package invocation %d, package q%d", mi, pi), v, q.old, q.oldExists, a, s)
 		}
 	})
 
